@@ -86,6 +86,10 @@ def check_operation_wiring(rep, prog, rid):
                     continue
                 k1, k2, alg2 = d['esk_key'], d['data_key'], d['data_alg']
                 ok = k1 == k2 and k1 is not None and d['esk_alg'] == [alg2]
+                rep.check(_callers_cipher(alg2), rid, '%s.encrypt' % cls, '%s: cipher %s' % (scen, alg2),
+                          'the cipher of the operation is the caller\'s `cipher` preference (with a default), decided once: it sizes the session '
+                          'key and is written into every session-key packet - it is never re-chosen afterwards', where=fi.where, scenario=scen,
+                          expected="prefs.pop('cipher', <default>)", found=alg2)
                 rep.check(ok, rid, '%s.encrypt' % cls, '%s: ESK(key=%s) container(key=%s, cipher=%s)' % (scen, k1, k2, alg2),
                           'the session key and cipher recorded in the session-key packet must be the ones the container is encrypted with',
                           where=fi.where, scenario=scen)
@@ -104,6 +108,72 @@ def check_operation_wiring(rep, prog, rid):
                 want = '%s.__bytes__()' % d['subject']
                 rep.check(pt in (want, want.replace('__bytes__', '__bytearray__'), d['subject']), rid, '%s.encrypt' % cls, '%s: plaintext %s' % (scen, pt),
                           'the container holds the whole serialised message', where=fi.where, expected=want, found=pt, scenario=scen)
+
+
+def _callers_cipher(text):
+    """Is the value the caller's `cipher` preference taken (once) from the keyword preferences, with some default?"""
+    from . import taint
+    c = taint.split_args(text or '')
+    return c is not None and c[0] in ('prefs.pop', 'prefs.get') and len(c[1]) in (1, 2) and c[1][0] == "'cipher'"
+
+
+def check_encrypters_current(rep, prog, rid):
+    """PGPMessage.encrypters is what PGPKey.decrypt consults to find out whether a message is addressed to a key: on every read it must
+    be a function of the CURRENT session-key packets.  Either every returning path computes it from self._sessionkeys, or - if a stored
+    value is handed back - every statement of the class that changes a _sessionkeys list resets that store next to the change."""
+    from . import taint
+    ci = prog.cls('pgpy.pgp', 'PGPMessage')
+    pp = ci.find_plain_prop('encrypters')
+    g = pp.get('get') if pp else None
+    if g is None:
+        raise AnalysisError('PGPMessage.encrypters vanished')
+    rep.saw(fn=g)
+    cached = set()
+    for s in taint.run_roles(prog, g, ('self',)):
+        if s.raised or s.ret is None:
+            continue
+        r = render(s.ret)
+        if 'self._sessionkeys' not in r:
+            # handed back from the object's own state rather than computed here (a local accumulator filled by a loop is computed here)
+            cached |= set(a for a in re.findall(r'(?<![A-Za-z0-9_.])self\.([A-Za-z_][A-Za-z0-9_]*)', r) if a != '_sessionkeys')
+    if not cached:
+        rep.ok(rid, 'PGPMessage.encrypters', 'computed from the current session-key packets on every read')
+        return
+    if not all(re.match(r'^[A-Za-z_][A-Za-z0-9_]*$', c) for c in cached):
+        rep.violation(rid, 'PGPMessage.encrypters', 'returns %s' % sorted(cached), 'the recipient set handed back is not derived from the session-key '
+                      'packets the message holds now', where=g.where, found=sorted(cached))
+        return
+    MUT = ('append', 'extend', 'insert', 'remove', 'pop', 'clear', 'sort', 'reverse')
+    for f in ci.methods.values():
+        if f.name == '__init__':
+            continue
+        def scan(stmts):
+            resets = set()
+            muts = []
+            for st in stmts:
+                for n in ast.walk(st) if not isinstance(st, (ast.If, ast.For, ast.While, ast.Try, ast.With)) else []:
+                    if isinstance(n, ast.Attribute) and n.attr in cached and isinstance(n.ctx, (ast.Store, ast.Del)):
+                        resets.add(n.attr)
+                    if isinstance(n, ast.Attribute) and n.attr == '_sessionkeys' and isinstance(n.ctx, (ast.Store, ast.Del)):
+                        muts.append(n)
+                    if isinstance(n, ast.Call) and isinstance(n.func, ast.Attribute) and n.func.attr in MUT and \
+                            isinstance(n.func.value, ast.Attribute) and n.func.value.attr == '_sessionkeys':
+                        muts.append(n)
+                    if isinstance(n, ast.AugAssign) and isinstance(n.target, ast.Attribute) and n.target.attr == '_sessionkeys':
+                        muts.append(n)
+                for name in ('body', 'orelse', 'finalbody'):
+                    sub = getattr(st, name, None)
+                    if isinstance(st, (ast.If, ast.For, ast.While, ast.Try, ast.With)) and isinstance(sub, list):
+                        scan(sub)
+                for h in getattr(st, 'handlers', []) or []:
+                    scan(h.body)
+            for n in muts:
+                missing = sorted(cached - resets)
+                rep.check(not missing, rid, '%s.%s' % (ci.name, f.name), 'change of _sessionkeys without resetting %s' % missing,
+                          'the recipient set is kept in %s; a statement that changes the session-key packets must reset it, otherwise a key '
+                          'added afterwards is not found by decrypt()' % sorted(cached), where='%s:%d' % (f.module.relpath, n.lineno),
+                          expected='%s reset next to the change' % sorted(cached), found=ast.unparse(n)[:120])
+        scan(f.node.body)
 
 
 def _or_parts(text):
@@ -216,6 +286,17 @@ def check_readdressing(rep, prog, rid):
             # the caller's message ITSELF (not a copy: a copied container packet has lost its header) plus the new packet
             ok = len(d['esk']) == 1 and not d['data'] and sorted(x for x in parts if x not in fresh) == sorted([d['esk_obj'], d['subject']]) and \
                 len(fresh) <= 1
+            if len(d['esk']) == 1:
+                ea = d['esk'][0]
+                ocls = taint.objects(d['state'])[d['esk_obj']].cls
+                names = ocls.find_method('encrypt_sk').params[1:]
+                got = taint.bind_call(ea, names)
+                algs = [got.get(names[1])] if ENCRYPT_OPS[cls][3] is not None and len(names) > 1 else \
+                    [v for p, v, l, _ in d['state'].stores if p == d['esk_obj'] + '.s2k.encalg']
+                rep.check(len(algs) == 1 and _callers_cipher(algs[0]), rid, '%s.encrypt' % cls, 'already encrypted: cipher %s' % algs,
+                          'a session-key packet added for a further recipient must name the cipher the caller states for the message, not one '
+                          're-chosen from that recipient\'s preferences', where=fi.where, scenario='already encrypted',
+                          expected="prefs.pop('cipher', <default>)", found=algs)
             rep.check(ok, rid, '%s.encrypt' % cls, 'already encrypted: returns %s' % ret[:120],
                       'for a message that is already encrypted the result must be that message together with the new session-key packet',
                       where=fi.where, expected='%s | <session-key packet>' % d['subject'], found=ret, scenario='already encrypted')
